@@ -554,6 +554,18 @@ def handwritten() -> List[dict]:
                       ("Y", ["N0", "N0"], [("X", [1]), ("c", [0, 1])], [0]), ("Y", ["N0"], [("Z", [0])], [0]),
                       ("Z", ["N0"], [("d", [0])], [0])],
                      {"a": [0.3, 0.2], "b": [0.5, 0.25], "c": [[0.2, 0.1], [0.3, 0.25]], "d": [0.4, 0.6]}, {"family": "three-levels-with-cycle"}))
+    # nonterminals whose value is constant along an external node that no edge touches (their tensors are broadcast views), used
+    # side by side in one rule: the order in which the edges of that rule are added must not matter
+    for d in (2, 3):
+        g3 = [[[(4 * i + 2 * j + k + 1) / 10 for k in range(d)] for j in range(d)] for i in range(d)]
+        out.append(G._mk({"N0": d}, {"S": ([], N), "R": (["N0", "N0", "N0"], N), "U": (["N0"], N), "V": (["N0"], N), "W": (["N0"], N),
+                                    "k": ([], T), "k2": ([], T), "f": (["N0"], T), "g": (["N0", "N0", "N0"], T)}, "S",
+                         [("S", ["N0", "N0", "N0"], [("R", [0, 1, 2]), ("g", [0, 1, 2])], []),
+                          ("R", ["N0", "N0", "N0"], [("V", [0]), ("U", [1]), ("f", [2])], [0, 1, 2]),
+                          ("R", ["N0", "N0", "N0"], [("U", [2]), ("W", [0]), ("V", [1])], [0, 1, 2]),
+                          ("U", ["N0"], [("k", [])], [0]), ("V", ["N0"], [("k2", [])], [0]),
+                          ("W", ["N0", "N0"], [("f", [1])], [0])],
+                         {"k": 0.5, "k2": 0.25, "f": [0.9, 0.1, 0.3][:d], "g": g3}, {"family": "broadcast-operands-side-by-side"}))
     return out
 
 
